@@ -97,47 +97,6 @@ theorem addLine_mkField (src : List Str) (done : List Fld) (n cnt : Nat) :
 
 /-! ### rstripLines -/
 
-theorem rstripLines_prefix (ls : List NL) : ∃ t, ls = rstripLines ls ++ t := by
-  induction ls with
-  | nil => exact ⟨[], rfl⟩
-  | cons l ls ih =>
-    obtain ⟨t, ht⟩ := ih
-    simp only [rstripLines]
-    cases hr : rstripLines ls with
-    | nil =>
-      by_cases hb : isBlank l.val = true
-      · exact ⟨l :: ls, by simp [hb]⟩
-      · refine ⟨ls, by simp [hb]⟩
-    | cons r rs =>
-      rw [hr] at ht
-      exact ⟨t, by simp; exact ht⟩
-
-theorem rstripLines_mem_or_blank (ls : List NL) : ∀ l ∈ ls, l ∈ rstripLines ls ∨ isBlank l.val = true := by
-  induction ls with
-  | nil => intro l hl; cases hl
-  | cons a as ih =>
-    intro l hl
-    simp only [rstripLines]
-    cases hr : rstripLines as with
-    | nil =>
-      rcases List.mem_cons.mp hl with rfl | hl
-      · by_cases hb : isBlank l.val = true
-        · exact Or.inr hb
-        · simp [hb]
-      · have := ih l hl
-        rw [hr] at this
-        rcases this with h | h
-        · cases h
-        · exact Or.inr h
-    | cons r rs =>
-      rcases List.mem_cons.mp hl with rfl | hl
-      · simp
-      · have := ih l hl
-        rw [hr] at this
-        rcases this with h | h
-        · exact Or.inl (List.mem_cons_of_mem _ h)
-        · exact Or.inr h
-
 theorem consecutive_prefix (xs ys : List Nat) (h : consecutive (xs ++ ys) = true) : consecutive xs = true := by
   induction xs with
   | nil => rfl
